@@ -9,7 +9,7 @@
    filtered v f           mirror of Node._add_filtered with its parent stack (Tree.filtered / copy(predicate=))
    dbl v g                g plus the D24 leaves (known finding, pinned by tests/test_core.py::TestCopy::test_filtered) *)
 From Coq Require Import List ZArith Bool Arith.
-From NT Require Import Sx Rose Filter FilterProofs FilterSource CaseC08.  (* CaseC08: so that the correspondence entry point is rebuilt with the theorems *)
+From NT Require Import Sx Rose Filter FilterProofs FilterUnique FilterSource CaseC08.  (* CaseC08: so that the correspondence entry point is rebuilt with the theorems *)
 From NTGen Require Import Generated.
 Import ListNotations.
 
@@ -172,16 +172,65 @@ Print Assumptions C08_copy_refuted.
 (* ---- the public entry points (optional predicate) -------------------- *)
 Theorem C08_api_without_predicate : forall f nx,
   api_filter None f = EValue /\ api_filtered None f nx = EValue /\
-  same_modulo_ids (api_copy None f nx) f /\
-  ids (api_copy None f nx) = seq nx (length (ids f)).
+  api_copy None f nx = copy_result (fst (copy_f f nx)) /\
+  same_modulo_ids (fst (copy_f f nx)) f /\
+  ids (fst (copy_f f nx)) = seq nx (length (ids f)).
 Proof. exact api_without_predicate. Qed.
 Print Assumptions C08_api_without_predicate.
 
 Theorem C08_api_with_predicate : forall v f nx, NoDup (ids f) ->
   api_filter (Some v) f = Ok (F v f) /\
-  (exists g, api_filtered (Some v) f nx = Ok g /\ api_copy (Some v) f nx = g /\ same_modulo_ids g (dbl v (F v f))).
+  api_filtered (Some v) f nx = copy_result (fst (add_filtered v f nx)) /\
+  api_copy (Some v) f nx = copy_result (fst (add_filtered v f nx)) /\
+  same_modulo_ids (fst (add_filtered v f nx)) (dbl v (F v f)).
 Proof. exact api_with_predicate. Qed.
 Print Assumptions C08_api_with_predicate.
+
+(* add_child refuses a second child with one data_id (UniqueConstraintError): the copying form
+   is refused iff the tree it would build -- F plus the D24 leaves -- has two siblings with one data_id *)
+Theorem C08_copy_refused_iff : forall v f nx,
+  api_filtered (Some v) f nx = (if sib_dup (dbl v (F v f)) then EUnique else Ok (fst (add_filtered v f nx))) /\
+  api_copy (Some v) f nx = api_filtered (Some v) f nx.
+Proof. exact copy_refused_iff. Qed.
+Print Assumptions C08_copy_refused_iff.
+
+(* never on a legal tree in which no node has a child with the node's own data_id; the filter spec
+   itself (no D24 leaves) maps legal trees to legal trees; plain copies are never refused *)
+Theorem C08_copy_not_refused : forall v f nx, sib_dup f = false -> pc_dup f = false ->
+  api_filtered (Some v) f nx = Ok (fst (add_filtered v f nx)).
+Proof. exact copy_not_refused. Qed.
+Print Assumptions C08_copy_not_refused.
+
+Theorem C08_F_legal : forall v f, sib_dup f = false -> sib_dup (F v f) = false.
+Proof. exact F_legal. Qed.
+Print Assumptions C08_F_legal.
+
+Theorem C08_plain_copy_not_refused : forall f nx, sib_dup f = false -> api_copy None f nx = Ok (fst (copy_f f nx)).
+Proof. exact plain_copy_not_refused. Qed.
+Print Assumptions C08_plain_copy_not_refused.
+
+(* part of the known finding D24: on a legal tree (a clone directly below its original, both accepted)
+   the copying form raises while the in-place form succeeds -- the statement "the in-place and the
+   copying form give the same result" fails outright there *)
+Definition C08_copy_never_fails_statement : Prop :=
+  forall v f nx, NoDup (ids f) -> sib_dup f = false -> exists g, api_filtered (Some v) f nx = Ok g.
+Definition clone_below : forest :=
+  [T 1 (I 7 7 0 true [] (DInt 7) None []) [T 2 (I 7 7 0 true [] (DInt 7) None []) []]].
+Theorem C08_copy_can_fail_refuted : ~ C08_copy_never_fails_statement.
+Proof.
+  intros H. destruct (H (fun _ => VTrue) clone_below 1) as [g Hg].
+  - apply nodupb_sound. vm_compute. reflexivity.
+  - vm_compute. reflexivity.
+  - vm_compute in Hg. discriminate Hg.
+Qed.
+Print Assumptions C08_copy_can_fail_refuted.
+
+Example C08_clone_below :
+  NoDup (ids clone_below) /\ sib_dup clone_below = false /\ pc_dup clone_below = true /\
+  api_filter (Some (fun _ => VTrue)) clone_below = Ok clone_below /\
+  api_filtered (Some (fun _ => VTrue)) clone_below 1 = EUnique /\
+  sib_dup fixture = false /\ pc_dup fixture = false.
+Proof. split; [apply nodupb_sound; vm_compute; reflexivity|vm_compute; repeat split; reflexivity]. Qed.
 
 (* ---- stop -------------------------------------------------------------- *)
 (* a stop answer among the reached nodes: the stopping node s is the last call,
